@@ -115,7 +115,7 @@ impl Recorder {
     /// C09 driver: commit-heavy sessions with restarts, re-typing, suffixed re-typing, wrapping punctuation.
     pub fn driver_store(&mut self, rounds: usize) {
         let punct_lead = ["", "", "(", "\"", "'", "[", "*", "\"'"];
-        let punct_trail = ["", "", ")", "\"", "'", ".", "!", "?", ",", "'\"", "]"];
+        let punct_trail = ["", "", ")", "\"", "'", ".", "!", "?", ",", "'\"", "]", ":", ":)"];
         for round in 0..rounds {
             let smart = self.rng.below(2) == 0;
             let cfg = Cfg { layout: "phonetic".into(), psug: true, english: self.rng.below(2) == 0, smart, db: true, ..Default::default() };
@@ -150,6 +150,33 @@ impl Recorder {
                     if o2.kind != "panic" { ctx.finish(); }
                     self.emit(json!({"ev": "finish"}));
                     let _ = pass;
+                }
+            }
+            // directed: learn a word, commit another candidate for the word followed by a colon (a different word: the colon
+            // is typed text, not wrapping), type the first word again
+            if self.rng.below(3) == 0 {
+                let w = self.rng.pick(BASE_WORDS).to_string();
+                for (k, text) in [w.clone(), format!("{}:", w), w.clone()].into_iter().enumerate() {
+                    let (o, psel) = self.type_text_sel(&mut ctx, &text);
+                    if o.kind != "full" {
+                        if o.kind != "panic" { ctx.finish(); }
+                        self.emit(json!({"ev": "finish"}));
+                        if o.kind == "panic" { ctx = Ctx::new(&cfg, &self.home).unwrap(); self.emit(json!({"ev": "restart"})); }
+                        break;
+                    }
+                    self.emit_list(&text, &o, psel, smart);
+                    let n = o.cands.len();
+                    if k == 2 || n < 2 {
+                        ctx.finish();
+                        self.emit(json!({"ev": "finish"}));
+                        continue;
+                    }
+                    let idx = (o.sel + 1 + self.rng.below(n - 1)) % n;
+                    let oc = ctx.commit(idx);
+                    self.emit(json!({"ev": "commit", "idx": idx, "panic": oc.panic.clone().unwrap_or_default()}));
+                    if oc.kind == "panic" { ctx = Ctx::new(&cfg, &self.home).unwrap(); self.emit(json!({"ev": "restart"})); break; }
+                    let st = self.store_state(&self.home);
+                    self.emit(json!({"ev": "file", "state": st}));
                 }
             }
             for _ in 0..(6 + self.rng.below(6)) {
@@ -599,6 +626,27 @@ impl Recorder {
                 }
             }
         }
+        // data-derived stratum (both tiers): every prefix of the words a dictionary table lists MORE THAN ONCE - the only
+        // inputs on which the de-duplication of the list has something to do beyond the typed word itself
+        let mut tables: Vec<&String> = self.or.dict.keys().collect();
+        tables.sort();
+        for t in tables {
+            let mut count: std::collections::HashMap<&String, usize> = std::collections::HashMap::new();
+            for w in &self.or.dict[t] {
+                *count.entry(w).or_insert(0) += 1;
+            }
+            let mut dups: Vec<&String> = count.into_iter().filter(|(_, n)| *n > 1).map(|(w, _)| w).collect();
+            dups.sort();
+            for w in dups {
+                let cs: Vec<char> = w.chars().collect();
+                for k in 1..=cs.len() {
+                    let p: String = cs[..k].iter().collect();
+                    if seen.insert(p) {
+                        items.push((cs[..k].iter().map(|c| c.to_string()).collect(), String::new()));
+                    }
+                }
+            }
+        }
         let mut names: Vec<String> = self.or.bn_emoji_names.keys().map(|s| s.to_string()).collect();
         names.sort();
         for n in names {
@@ -797,9 +845,53 @@ impl Recorder {
                "panic": o.panic.clone().unwrap_or_default()})
     }
 
-    pub fn driver_session(&mut self, rounds: usize) {
+    /// Long compositions, systematically: after a one- or two-letter start every one of the 111 keys is pressed `LONG_RUN`
+    /// times in a row, in both methods with suggestions on (counters, distances and patterns leave their usual range).
+    /// Emitted as ordinary session events.
+    fn long_runs(&mut self, shard: usize, shards: usize) {
+        const LONG_RUN: usize = 40;
+        let all: Vec<u16> = self.keys.codes.iter().map(|k| k.code).collect();
+        let starts = ["k", "am", "r"];
+        let mut n = 0usize;
+        for phon in [true, false] {
+            for (ci, code) in all.iter().enumerate() {
+                n += 1;
+                if n % shards.max(1) != shard % shards.max(1) {
+                    continue;
+                }
+                let layout = if phon { "phonetic" } else { "probhat" };
+                let cfg = Cfg { layout: layout.into(), psug: phon, fsug: !phon, english: ci % 2 == 0, smart: ci % 3 == 0, vowel: true, chandra: true,
+                                kar: ci % 2 == 1, reph: true, numpad: true, karorder: false, db: true, ..Default::default() };
+                let j = json!({"method": if phon { "phonetic" } else { "fixed" }, "layout": layout, "sug": true, "numpad": true,
+                               "o": {"vowel": true, "chandra": true, "kar": cfg.kar, "reph": true, "karorder": false}});
+                clean_home(&self.home);
+                let mut ctx = match Ctx::new(&cfg, &self.home) {
+                    Ok(c) => c,
+                    Err(_) => continue,
+                };
+                self.emit(json!({"ev": "new", "cfg": j}));
+                let start = starts[ci % starts.len()];
+                let mut seq: Vec<u16> = start.chars().filter_map(|c| self.keys.code_for_char(c)).collect();
+                seq.extend(std::iter::repeat(*code).take(LONG_RUN));
+                for c in seq {
+                    let o = ctx.key(c, 0, 0);
+                    let mut e = json!({"ev": "key", "code": c, "mod": 0, "sel": 0});
+                    for (k, v) in Self::ret_fields(&o).as_object().unwrap() {
+                        e[k] = v.clone();
+                    }
+                    self.emit(e);
+                    if o.kind == "panic" {
+                        break;
+                    }
+                }
+            }
+        }
+    }
+
+    pub fn driver_session(&mut self, rounds: usize, shard: usize, shards: usize) {
         let letters: Vec<u16> = "abcdefghijklmnopqrstuvwxyzABDGHJKNOSTZ".chars().filter_map(|c| self.keys.code_for_char(c)).collect();
         let all: Vec<u16> = self.keys.codes.iter().map(|k| k.code).collect();
+        self.long_runs(shard, shards);
         for _ in 0..rounds {
             clean_home(&self.home);
             let (mut cfg, j) = self.sess_cfg();
@@ -822,7 +914,21 @@ impl Recorder {
             for _ in 0..(40 + self.rng.below(80)) {
                 let r = self.rng.below(100);
                 let last_len = last.len();
-                if r < 68 {
+                if self.rng.below(60) == 0 {
+                    // a burst: one key (any of the 111) pressed many times in a row - long compositions, where counters
+                    // and distances leave their usual range
+                    let code = if self.rng.below(2) == 0 { *self.rng.pick(&letters) } else { *self.rng.pick(&all) };
+                    let m = if self.rng.below(4) == 0 { 1u8 } else { 0 };
+                    let mut dead = false;
+                    for _ in 0..(24 + self.rng.below(70)) {
+                        let o = ctx.key(code, m, 0);
+                        self.emit(merge(json!({"ev": "key", "code": code, "mod": m, "sel": 0}), Self::ret_fields(&o)));
+                        if o.kind == "panic" { dead = true; break; }
+                        shown = o.kind == "single" || (o.kind == "full" && !o.cands.is_empty());
+                        last = o;
+                    }
+                    if dead { break; }
+                } else if r < 68 {
                     let code = if self.rng.below(10) < 7 { *self.rng.pick(&letters) } else { *self.rng.pick(&all) };
                     let m = match self.rng.below(10) { 0 => 1u8, 1 => 2, 2 => 3, 3 => 0x82, _ => 0 };
                     let sel = if last.kind == "full" && last_len > 0 && self.rng.below(3) == 0 { self.rng.below(last_len.min(255)) as u8 } else { 0 };
